@@ -71,6 +71,14 @@ func c14(r *core.Run) {
 			countV, minV = qa.Y, qa.X
 		}
 		countPhi, isPhi := countV.(*ssa.Phi)
+		countFn := fn
+		var tallyCall *ssa.Call
+		if !isPhi {
+			// the tally may live in a helper returning (count[, matched]): judge the helper's loop
+			if tf, tp, tc := tallyHelper(p, countV); tf != nil {
+				countFn, countPhi, tallyCall, isPhi = tf, tp, tc, true
+			}
+		}
 		mp := p.ProvAt(minV, "", qa.If).DataAtoms()
 		_, minArith := minV.(*ssa.BinOp)
 		direct := isPhi && !minArith && len(mp) == 1 && mp[0].Kind == "params"
@@ -90,7 +98,18 @@ func c14(r *core.Run) {
 			}
 			return op == token.GEQ || op == token.GTR
 		}
-		flagG := func(ca *core.CondAtom, truth bool) bool { return ca.Kind == "flag" && truth }
+		flagG := func(ca *core.CondAtom, truth bool) bool {
+			if ca.Kind == "flag" && truth {
+				return true
+			}
+			// the matched flag returned by the tally helper
+			if tallyCall != nil && (ca.Kind == "bool" || ca.Kind == "callbool") && truth {
+				if ex, ok := ca.X.(*ssa.Extract); ok && ex.Tuple == ssa.Value(tallyCall) && isBoolType(ex) {
+					return true
+				}
+			}
+			return false
+		}
 		foundForm := foundGuard(p, us.formPrefix, true)
 		var acting, all []*core.Effect
 		for _, e := range p.Effects(fn) {
@@ -175,7 +194,7 @@ func c14(r *core.Run) {
 		}
 		// ---- R2 counting
 		if isPhi {
-			c14Counting(r, us.key, fn, countPhi, h)
+			c14Counting(r, us.key, countFn, countPhi, h)
 		}
 		// ---- R3 consumed
 		var del *core.Effect
@@ -436,4 +455,46 @@ func effKinds(e *core.Effect) string {
 		set[o.Kind+" "+o.Prefix] = true
 	}
 	return strings.Join(sortedKeys(set), "+")
+}
+
+// tallyHelper: v is (a component of) the result of a call to a single custom helper whose corresponding result is,
+// at every return, one phi (the loop counter).
+func tallyHelper(p *core.Program, v ssa.Value) (*ssa.Function, *ssa.Phi, *ssa.Call) {
+	idx := 0
+	var call *ssa.Call
+	switch x := v.(type) {
+	case *ssa.Extract:
+		c, ok := x.Tuple.(*ssa.Call)
+		if !ok {
+			return nil, nil, nil
+		}
+		call, idx = c, x.Index
+	case *ssa.Call:
+		call = x
+	default:
+		return nil, nil, nil
+	}
+	cs := p.Callees(call)
+	if len(cs) != 1 {
+		return nil, nil, nil
+	}
+	var phi *ssa.Phi
+	for _, b := range cs[0].Blocks {
+		ret, ok := b.Instrs[len(b.Instrs)-1].(*ssa.Return)
+		if !ok {
+			continue
+		}
+		if idx >= len(ret.Results) {
+			return nil, nil, nil
+		}
+		ph, ok := ret.Results[idx].(*ssa.Phi)
+		if !ok || (phi != nil && phi != ph) {
+			return nil, nil, nil
+		}
+		phi = ph
+	}
+	if phi == nil {
+		return nil, nil, nil
+	}
+	return cs[0], phi, call
 }
